@@ -815,6 +815,12 @@ def _g_str(se, a, kw):
     return V(STR, z3.Const("G_" + q, z3.StringSort()))
 
 
+@specfun("the")
+def _the(se, a, kw):
+    """the(x): the value of an Opt[...] that the surrounding clause has established to be present"""
+    return unopt(a[0])
+
+
 @specfun("G_bytes")
 def _g_bytes(se, a, kw):
     q = z3.simplify(a[0].t).as_string()
